@@ -248,6 +248,15 @@ class NDArr:
                 raise ModelError('ndarr: index array and integer separated by a slice')
         return sels
 
+    def _demask(self, k):
+        """a one-dimensional boolean mask over a one-dimensional array -> the list of selected positions (numpy: a[mask]); anything else unchanged"""
+        m = k.d if isinstance(k, NDArr) else k
+        if isinstance(m, list) and m and self.ndim == 1 and all(isinstance(b, bool) for b in m):
+            if len(m) != len(self.d):
+                raise IndexError(f'boolean index did not match indexed array along axis 0; size of axis is {len(self.d)} but size of corresponding boolean axis is {len(m)}')
+            return [i for i, b in enumerate(m) if b]
+        return k
+
     def _nd_index(self, k):
         """an index array of two or more dimensions into a one-dimensional array (numpy: the result has the shape of the index) -> nested list
         of checked positions, or None when k is no such index"""
@@ -267,6 +276,7 @@ class NDArr:
         return _map(k, chk)
 
     def __getitem__(self, k):
+        k = self._demask(k)
         nd = self._nd_index(k)
         if nd is not None:
             return NDArr(_map(nd, lambda i: self.d[i]), dt=self.dt)
@@ -296,6 +306,7 @@ class NDArr:
         origin = getattr(self, '_origin', None)
         if self.view and origin is None:
             raise ModelError('ndarr: store through a view of unknown origin')
+        k = self._demask(k)
         nd = self._nd_index(k)
         if nd is not None:
             v = _raw(val)
@@ -502,6 +513,14 @@ def numpy_ns(**extra):
             out.extend(p)
         return NDArr(out)
 
+    def append(a, v, **kw):
+        if kw:
+            raise ModelError('ndarr: np.append keywords')
+        a, v = _raw(a), _raw(v)
+        flat_a = list(_flat(a)) if isinstance(a, list) else [a]
+        flat_v = list(_flat(v)) if isinstance(v, list) else [v]
+        return NDArr(flat_a + flat_v)        # without an axis both operands are flattened
+
     def flatnonzero(a):
         return NDArr([i for i, x in enumerate(_flat(_raw(a))) if x])
 
@@ -551,7 +570,7 @@ def numpy_ns(**extra):
 
     def full_(shape, v, **kw):
         return _full(shape, v)
-    fns = dict(choose=choose, where=where, arange=arange, concatenate=concatenate, flatnonzero=flatnonzero, zeros=zeros, ones=ones, full=full,
+    fns = dict(append=append, choose=choose, where=where, arange=arange, concatenate=concatenate, flatnonzero=flatnonzero, zeros=zeros, ones=ones, full=full,
                zeros_like=zeros_like, full_like=full_like, array=array, asarray=array, hstack=concatenate, expand_dims=expand_dims,
                logical_not=un(lambda x: not x), logical_and=bi(lambda x, y: bool(x) and bool(y)), logical_or=bi(lambda x, y: bool(x) or bool(y)),
                logical_xor=bi(lambda x, y: bool(x) != bool(y)), minimum=bi(min), maximum=bi(max),
@@ -566,9 +585,12 @@ def numpy_ns(**extra):
             if isinstance(i, bool) or not hasattr(i, '__index__'):
                 raise ModelError('ndarr: np.add.at with a non-integer index')
             a[i] = a[i] + x
+    def subtract_at(a, idx, v):
+        add_at(a, idx, _map(_raw(v), lambda x: -x) if isinstance(_raw(v), list) else -v)
     fns.update(extra)
     out = NumpyNS(**{k: stub(v) for k, v in fns.items()})
     out.add = NS(at=stub(add_at))
+    out.subtract = NS(at=stub(subtract_at))
     for nm in DTYPES:
         setattr(out, nm, DType(nm))
     return out
